@@ -53,12 +53,16 @@ func bodyText(kind string) string {
 		return "(do (trace! :run) (block! 1) 42)"
 	case "panic":
 		return "(do (trace! :run) (gate! 0) (raw-panic!))"
+	case "nil":
+		return "(do (trace! :run) (gate! 0) nil)"
+	case "nil-sleep":
+		return "(do (trace! :run) (gate! 0) (sleep 5))"
 	}
 	return "nil"
 }
 
 func genCase(t *rapid.T) Case {
-	c := Case{Body: []string{"value", "value", "throw", "sleep", "ignore", "panic"}[gen.Uniform(t, "body", 6)]}
+	c := Case{Body: []string{"value", "value", "throw", "sleep", "ignore", "panic", "nil", "nil-sleep"}[gen.Uniform(t, "body", 8)]}
 	for _, s := range sites {
 		if gen.Uniform(t, "hold", 4) == 0 {
 			c.Hold = append(c.Hold, s)
@@ -458,6 +462,32 @@ func check(c Case) pbt.Verdict {
 		// EVAL before every form) cannot complete normally any more
 		if alone && firstCancel.b && c.Body != "ignore" && !sawCancelled.Load() && len(outcomes) > 0 && outcomes[0].err == "" {
 			return fail("body-context-not-cancelled", "future-cancel returned true while the body was parked, yet the body completed normally with %s: its context was not cancelled", val.Canon(outcomes[0].v))
+		}
+	}
+	// a future-done? that returned true before anybody cancelled proves completion: the first cancel
+	// after it must return false and must not mark the future cancelled
+	if firstCancel != nil {
+		provenDone := false
+		for _, o := range hist {
+			if o.op == "done?" && o.b && o.ret < firstCancel.call {
+				provenDone = true
+			}
+		}
+		alone := true
+		for _, o := range hist {
+			if o.op == "cancel" && !(o.call == firstCancel.call && o.ret == firstCancel.ret) && o.call <= firstCancel.ret {
+				alone = false
+			}
+		}
+		if provenDone && alone {
+			if firstCancel.b {
+				return fail("cancel-true-on-completed", "future-done? had returned true (nobody had cancelled), yet the first future-cancel after it returned true")
+			}
+			for _, o := range hist {
+				if o.op == "cancelled?" && o.b {
+					return fail("cancelled-after-completion", "future-cancelled? is true although the future completed before any cancel")
+				}
+			}
 		}
 	}
 	if firstCancel != nil && firstCancel.b {
